@@ -69,3 +69,15 @@ Definition show_sub_result (sc : subunit_class) (r : res (sub_state * list (text
   | Raise => [10; END; END2]
   | Ok (st, ns) => show_reads sc st ++ [7; END] ++ show_notes ns ++ [END2]
   end.
+
+(* ---- puts (C05) *)
+From Ynca Require Import Model.Put.
+Definition show_put (p : put) : list N :=
+  let '(s, f, v) := p in (s ++ SEP :: f ++ SEP :: v ++ [END])%list.
+
+Definition show_put_result (r : option (res (list put))) : list N :=
+  match r with
+  | None => [11; END; END2]
+  | Some Raise => [10; END; END2]
+  | Some (Ok l) => (12 :: END :: flat_map show_put l ++ [END2])%list
+  end.
